@@ -9,6 +9,7 @@ on that stroke; and only hearing that bell on that stroke takes it out.
 import Wheatley.Model.World
 import Wheatley.Lemmas.SoloWorld
 import Wheatley.Lemmas.Cli
+import Wheatley.Lemmas.Handlers
 namespace Wheatley.C09
 
 variable {K : Type} [Num K]
@@ -279,5 +280,25 @@ theorem cli_waits_unless_keep_going (c : Parse.Chars) (os : List Cli.Opt) (u : O
     (cfg : Cli.Cfg) (h : Cli.consoleMain c os u = .built cfg) :
     cfg.useWait = !decide (Cli.Opt.keepGoing ∈ os) :=
   (Cli.main_built c os u cfg h).2.2.2.1
+
+/-! ### Messages during the wait -/
+
+/-- **Whatever else happens meanwhile**: while the main thread is polling for a human bell, the delivery of any
+event whatsoever leaves it at the same test and strikes nothing; and unless that event took the bell out of the
+awaited set (its own strike on this stroke - `strike_disarms_only_itself`) or asked the wait to be given up
+(Look To, Stop Touch), the next wake-up sleeps again.  -/
+theorem poll_survives_delivery {K : Type} [Num K] (wt : K → K) (w : World K) (e : Ev) (bell : Nat) (hand : Bool) (d : K)
+    (hpc : w.pc = .userPoll bell true hand d) :
+    (World.deliver wt w e).pc = .userPoll bell true hand d ∧
+    ringsOf (World.deliver wt w e).obs = ringsOf w.obs ∧
+    (∀ wr', (World.deliver wt w e).rh.wait = some wr' → bell ∈ wr'.expected hand → wr'.shouldReturn = false →
+      (World.deliver wt w e).mainStep wt =
+        ({ (World.deliver wt w e) with pc := .userPoll bell true hand (d + Num.ofQ Generated.waitSleepTime) },
+         .sleep (Num.ofQ Generated.waitSleepTime))) := by
+  obtain ⟨h1, h2⟩ := deliver_never_rings wt w e
+  refine ⟨h1.trans hpc, h2, ?_⟩
+  intro wr' hw hexp hret
+  rw [poll_returns_to_test _ wt bell true hand d (h1.trans hpc)]
+  exact wait_holds _ wt wr' bell hand _ true hw hexp (by simp [hret])
 
 end Wheatley.C09
